@@ -18,11 +18,13 @@ import (
 	"github.com/relex/slog-agent/transform/taddfields"
 	"github.com/relex/slog-agent/transform/tdelfields"
 	"github.com/relex/slog-agent/transform/tdrop"
+	"github.com/relex/slog-agent/transform/textract"
 	"github.com/relex/slog-agent/transform/textractspecial"
 	"github.com/relex/slog-agent/transform/tif"
 	"github.com/relex/slog-agent/transform/tmapvalue"
 	"github.com/relex/slog-agent/transform/tparsetime"
 	"github.com/relex/slog-agent/transform/tredactemail"
+	"github.com/relex/slog-agent/transform/treplace"
 	"github.com/relex/slog-agent/transform/ttruncate"
 	"github.com/relex/slog-agent/transform/tunescape"
 	"github.com/relex/slog-agent/zz_verif/sym"
@@ -188,6 +190,29 @@ func VerifC16_OrchestrationKeys() {
 	_ = o
 	base.NewLogProcessCounter(verifMetrics(), verifProgSchema, locs, []string{"out"})
 	sym.Reach("accepted")
+}
+
+// VerifC16_RegexpTransforms: the regexp-based transforms (extract, replace):
+// key names, capture names (a schema field / an unknown name / unnamed) and
+// patterns (valid / not compilable / empty) by symbolic choice: whatever
+// verifies can be built and processes a record of up to 3 arbitrary bytes. The
+// regexp package itself is executed by the engine (concrete pattern, symbolic input).
+//
+//verif:reach accepted rejected
+//verif:paths 100000
+//verif:steps 50000000
+func VerifC16_RegexpTransforms() {
+	var tc verifTC
+	switch sym.Choice("transform", 2) {
+	case 0:
+		capture := []string{"(?P<app>", "(?P<nope>", "("}[sym.Choice("capture", 3)]
+		pattern := []string{"^" + capture + "[a-z]+)=", "^" + capture + "[a-z]+=", ""}[sym.Choice("pattern", 3)]
+		tc = verifTC{Value: &textract.Config{Key: verifName("key"), Pattern: pattern}}
+	case 1:
+		pattern := []string{"[0-9]+", "[0-9", ""}[sym.Choice("pattern", 3)]
+		tc = verifTC{Value: &treplace.Config{Key: verifName("key"), Pattern: pattern, Replacement: []string{"N", "<$0>"}[sym.Choice("replacement", 2)]}}
+	}
+	verifAcceptedRuns(tc)
 }
 
 // VerifC16_AcceptedTemplateSlicesRun: every accepted substring template processes every value without panicking.
